@@ -70,12 +70,29 @@ func c11History(c *rt.Ctx, h int) {
 		_ = x.WriteFile(x.Join(dir, "a", "b"), []byte("seed"), 0o666)
 		_ = x.Chmod(x.Join(dir, "a"), 0o777)
 	}
+	// creating a view is not a call that changes the file system it is created from: its user, umask and current
+	// directory (moved away from "/" first) must be what they were
+	if dir != "/" && r.IntN(2) == 0 {
+		_ = P.Chdir(dir)
+		_ = Q.Chdir(dir)
+	}
+	pu0, pm0, pd0 := P.User().Name(), P.UMask(), mustWd(P)
 	V, err := P.Sub(dir)
 	if err != nil {
 		c.Disagree("setup|sub-fails", fmt.Sprintf("Sub(%q) of an existing directory fails: %v", dir, err), nil)
 		return
 	}
 	sib, _ := P.Sub("/")
+	c11SubKeeps := func(who string) bool {
+		if P.User().Name() != pu0 || P.UMask() != pm0 || mustWd(P) != pd0 {
+			c.Disagree("view-state|sub-changes-its-parent", fmt.Sprintf("Sub(%q): creating a view (%s) changed the file system it was created from: user %s->%s umask %04o->%04o cwd %s->%s", dir, who, pu0, P.User().Name(), uint32(pm0), uint32(P.UMask()), pd0, mustWd(P)), map[string]any{"dir": dir})
+			return false
+		}
+		return true
+	}
+	if !c11SubKeeps("Sub of the parent") {
+		return
+	}
 	nested := false
 	if dir != "/" && r.IntN(3) == 0 {
 		// a nested view: view of a view
@@ -85,6 +102,9 @@ func c11History(c *rt.Ctx, h int) {
 				V, nested = nv, true
 			}
 		}
+	}
+	if !c11SubKeeps("nested Sub") {
+		return
 	}
 	C, _ := Q.Sub("/") // counterpart: the twin parent driven with prefixed paths, as the same user
 	vcwd := "/"
@@ -112,6 +132,17 @@ func c11History(c *rt.Ctx, h int) {
 			recs = append(recs, rec)
 		}
 		g.Observe(recs, vcwd)
+		if r.IntN(25) == 0 {
+			// a view created from the view in the middle of the history: the view it is created from keeps its state
+			vu, vm, vd := V.User().Name(), V.UMask(), mustWd(V)
+			_, _ = V.Sub("/")
+			hist = append(hist, "view: Sub(\"/\")")
+			if V.User().Name() != vu || V.UMask() != vm || mustWd(V) != vd {
+				c.Disagree("view-state|sub-changes-its-parent", fmt.Sprintf("Sub(%q): creating a view of the view changed it: user %s->%s umask %04o->%04o cwd %s->%s", dir, vu, V.User().Name(), uint32(vm), uint32(V.UMask()), vd, mustWd(V)), replay())
+				return
+			}
+			continue
+		}
 		switch x := r.IntN(100); {
 		case x < 8:
 			// per-view setters must not leak into the parent or a sibling view
